@@ -127,7 +127,7 @@ impl Sched {
             loop {
                 let quiescent = st.granted.is_none() && st.w.iter().all(|x| matches!(x, W::AtLock(_) | W::Parked | W::Exited));
                 if quiescent { break; }
-                let (g, to) = self.cv.wait_timeout(st, std::time::Duration::from_secs(4)).unwrap(); st = g;
+                let (g, to) = self.cv.wait_timeout(st, std::time::Duration::from_secs(8)).unwrap(); st = g;
                 // a worker that neither reaches an event nor exits for seconds is blocked where the hooks do not see
                 if to.timed_out() { let mut any = false; for x in st.w.iter_mut() { if matches!(*x, W::Running | W::Woken | W::NotStarted) { *x = W::Exited; any = true; } } if any { st.silent = true; } }
             }
@@ -238,7 +238,7 @@ pub fn run_scheduled(fam: &Fam, cfg: &PCfg) -> PRun {
         let t0 = std::time::Instant::now();
         loop {
             if let Some(r) = result.lock().unwrap().take() { let _ = handle.join(); break r; }
-            if t0.elapsed().as_secs() >= 4 { deadlock = true; break None; }
+            if t0.elapsed().as_secs() >= 8 { deadlock = true; break None; }
             std::thread::sleep(std::time::Duration::from_millis(1));
         }
     };
@@ -337,7 +337,7 @@ pub fn run_par(a: &Args) {
 /// watchdog of the free-running engine: a run that does not return within `HANG_MS` (normal runs take milliseconds) is
 /// reported as the case `hang` and the process ends (its blocked threads cannot be recovered)
 static STRESS_CUR: Mutex<Option<(std::time::Instant, String, String)>> = Mutex::new(None);
-const HANG_MS: u128 = 20_000;
+const HANG_MS: u128 = 60_000;
 pub fn run_parstress(a: &Args) {
     let out = Arc::new(Mutex::new(Some(Out::new(&a.out, "parstress"))));
     {
